@@ -143,8 +143,9 @@ class Gen:
             lambda ex: A.attr_list(A.path([A.ident('allow')]), [('I', 'unused', 'input')]),
             lambda ex: A.attr_doc(' docs'),
             lambda ex: A.attr_path(A.path([A.ident('inline')])),
+            lambda ex: A.attr_list(A.path([A.ident('async_trait')]), [('P', '?', 'input'), ('I', 'Send', 'input')]),
         ]
-        labels = ['async_trait', '::async_trait::async_trait', 'mockall::automock', 'allow(..)', 'doc', 'inline']
+        labels = ['async_trait', '::async_trait::async_trait', 'mockall::automock', 'allow(..)', 'doc', 'inline', 'async_trait(?Send)']
         if nested:
             alts.append(lambda ex: A.attr_list(A.path([A.ident('cfg')]), [('I', 'any', 'input'), ('G', '(', [], 'input')]))
             labels.append('cfg(any())')
